@@ -70,6 +70,10 @@ FLOORS = {"quick": {"evaluations": 900, "distinct_nontrivial": 400,
                        "counters": {"seeded_compared": 5000, "seeded_processes": 300, "seeded_threads": 4500, "unseeded_pairs": 2600,
                                     "together_vs_alone": 5000, "own_draw_checked": 600, "choice_checked": 1500, "permutation_checked": 650},
                        "sets": {"seeded_api_dist": 36, "unseeded_mode_dist": 60}, "max_skipped_fraction": 0.15}}
+# sibling facet (vf/mon/siblings.py): ~45 % of the smallest count of the five quick seeds on the unchanged tree; thorough =
+# quick floor x (thorough / quick stream size) x 0.6.  A run in which the facet never executed is INCONCLUSIVE.
+FLOORS["quick"]["counters"].update({"siblings_built": 360, "siblings_computed_together": 47, "siblings_with_different_values": 41})
+FLOORS["thorough"]["counters"].update({"siblings_built": 2600, "siblings_computed_together": 330, "siblings_with_different_values": 290})
 EXHAUSTIVE_SPACE = None
 CLAIM = ("Every generated seeded array was rebuilt from a fresh generator and computed three times (sync twice, then threads "
          "or a process pool) with identical results; every generated pair of unseeded arrays had distinct names/keys and kept "
